@@ -216,6 +216,9 @@ class Session(object):
             ctx = v.run()
         except Exception as ex:
             res['error'] = '%s: %s' % (type(ex).__name__, ex)
+            if os.environ.get('GOWP_TRACE'):
+                import traceback
+                traceback.print_exc()
             res['gen_s'] = time.time() - t0
             return res
         res['gen_s'] = time.time() - t0
@@ -235,6 +238,15 @@ class Session(object):
             cn = Obligation(short_fn(full) + '/canary.return#%d' % i, 'canary', pc, FALSE, line or 0, len(ctx.asserts))
             cn.trivial = False
             canaries.append(cn)
+        nret = len(canaries)
+        seen_lp = {}
+        for nm, pc, na in getattr(v, 'loop_pcs', []):
+            k_ = seen_lp.get(nm, 0)
+            seen_lp[nm] = k_ + 1
+            cn = Obligation(short_fn(full) + '/canary.%s#%d' % (nm, k_), 'canary', pc, FALSE, 0, na)
+            cn.trivial = False
+            cn.loop = nm
+            canaries.append(cn)
 
         def work(ob):
             if ob.kind == 'canary':
@@ -251,10 +263,14 @@ class Session(object):
                                            'time': round(r['time'], 3), 'clause': ob.info.get('clause'), 'props': sorted(ob.props) if ob.props else None})
         vac = {}
         vac['requires_sat'] = 'unsat' if canaries[0].result['status'] == 'unsat' else 'ok'
-        rets = [c_.result['status'] for c_ in canaries[1:]]
+        rets = [c_.result['status'] for c_ in canaries[1:nret]]
+        lun = [c_.name.split('/')[-1] for c_ in canaries[nret:] if c_.result['status'] == 'unsat']
+        if lun:
+            vac['loop_points_unreachable'] = lun
         vac['return_reachable'] = 'no-return' if not rets else ('unsat' if all(x == 'unsat' for x in rets) else 'ok')
         vac['dead_returns'] = sum(1 for x in rets if x == 'unsat')
         res['vacuity'] = vac
+        res['canaries'] = canaries
         res['ctx'] = ctx
         res['verifier'] = v
         res['solve_s'] = time.time() - t0 - res['gen_s']
@@ -651,7 +667,7 @@ def main(argv=None):
                     if o['status'] != 'unsat':
                         bad += 1
             if a.dump:
-                for ob in r['ctx'].obligations:
+                for ob in list(r['ctx'].obligations) + list(r.get('canaries') or []):
                     if a.dump in ob.name:
                         open('/tmp/dump.smt2', 'w').write(solve.emit(r['ctx'], ob))
                         print('dumped', ob.name)
